@@ -16,7 +16,7 @@ RULE = ("positive random spectra with UNEQUAL axis lengths 2-7 (1-4 axes; 3x3 fo
         "f3/f4 vs the documented combinations of f2 on two-population marginals; invariance of pi, theta, S, D-Tajima, pi_xy, f2, f3, f4, Fst, KING, "
         "R0, R1 under fold(fill 0); independence of all but sum/f2/f3/f4 from the two monomorphic cells; invariance of f2, Fst, pi_xy, KING, R0, R1 "
         "under swapping the populations; scale invariance of f2, f3, f4, Fst, KING, R0, R1 and linear scaling of sum, S, pi, pi_xy, theta for "
-        "c in 2^-70..2^40 (incl. factors that push the total below f64::EPSILON, and factors that bring the total to within 1e-9 .. 1e-2 of one); monomorphic cells up to 3e15. Allowance abs 1e-9 + rel 1e-9; relations whose value is non-finite (zero denominator) are skipped, except that with one NaN entry in a polymorphic cell a statistic must stay NaN (or stay the same finite number) under fold(fill 0). "
+        "c in 2^-70..2^40 (incl. factors that push the total below f64::EPSILON, and factors that bring the total to within 1e-9 .. 1e-2 of one); monomorphic cells up to 3e15. A frequency spectrum scaled in place and normalised again (library call history) gives the same frequencies. Allowance abs 1e-9 + rel 1e-9; relations whose value is non-finite (zero denominator) are skipped, except that with one NaN entry in a polymorphic cell a statistic must stay NaN (or stay the same finite number) under fold(fill 0). "
         "Non-trivial: every relation on a spectrum with unequal axes (or 1-D); distinct = digest(spectrum, relation).")
 ASSUMPTIONS = ["relations are between outputs of the real code only; absolute correctness is C06's job"]
 FLOORS = {"quick": {"evaluations": 1500, "distinct_nontrivial": 1000, "counts": {"rel_f3_f2": 60, "rel_f4_f2": 60, "rel_fold": 500, "rel_monomorphic": 500, "rel_swap": 200, "rel_scale": 500, "C_runs": 100, "large_spectra": 100, "C_large_spectra": 30}},
@@ -127,6 +127,19 @@ def check_L(S, p):
                     S.count("rel_fold_nan_entry")
                     if math.isnan(a_) != math.isnan(b_) or (math.isfinite(a_) and math.isfinite(b_) and not same(a_, b_, scale=abs(a_))):
                         S.viol("C14:fold-nan:%s" % nm, "[L shape %r with one NaN entry] %s changes under fold with fill zero: %r -> %r" % (shape, nm, a_, b_), dict(wit, nan_data=GS.hexes(xn)))
+        # a frequency spectrum edited in place (every entry times c) and normalised again: the same frequencies as before
+        if i % 3 == 1:
+            from fractions import Fraction as _F
+            nh = harness.run_all([{"op": "spec", "do": "normalize_history", "shape": shape, "data": GS.hexes(data), "c": f2h(rng.choice([8.0, 0.5, 3.0, c]))}])[0]
+            S.count("rel_normalise_history")
+            if "data" not in nh:
+                S.viol("C14:normalise-history", "[L shape %r] normalise, scale in place, normalise again failed: %s" % (shape, str(nh)[:200]), wit)
+            else:
+                tot_ = sum(_F(x) for x in data)
+                badn = [(j, h2f(g_), float(_F(x) / tot_)) for j, (g_, x) in enumerate(zip(nh["data"], data))
+                        if not math.isfinite(h2f(g_)) or abs(_F(h2f(g_)) - _F(x) / tot_) > (_F(x) / tot_) / 10 ** 9 + _F(1, 10 ** 18)]
+                if badn:
+                    S.viol("C14:normalise-history", "[L shape %r] normalise, multiply every entry in place, normalise again: (flat, got, expected frequency) %r" % (shape, badn[:4]), wit)
         # monomorphic cells
         for nm in MONO_INV[d]:
             ok = same(val(base, nm), val(res[2], nm), scale=abs(val(base, nm) or 0))
